@@ -70,6 +70,7 @@ type conc struct {
 	Name   string
 	Broker bool
 	Bound  int
+	Flush  bool // the FlushAll / flush event / Close scenario
 }
 
 func concScenarios(tier string) []conc {
@@ -81,6 +82,8 @@ func concScenarios(tier string) []conc {
 	for i := range out {
 		out[i].Name = fmt.Sprintf("concurrent: Process(a) || Process(b) || clock +600ms, then Process(c) at +1.3s (Broker=%v)", out[i].Broker)
 	}
+	// FlushAll racing with a flush event and with Close: every gated event is emitted exactly once
+	out = append(out, conc{Name: "concurrent: groups a,b pending; FlushAll || Process(flush a) || Close (Broker=true)", Broker: true, Bound: b - 1, Flush: true})
 	return out
 }
 
@@ -89,7 +92,54 @@ type clockStep struct{ c *hn.Clock }
 //go:norace
 func (s clockStep) advance(d time.Duration) { s.c.Advance(d) }
 
+func flushBody(c conc) func() string {
+	return func() string {
+		g := hn.NewGateInst(hn.GateCfg{Broker: c.Broker, IDs: []string{"a", "b"}}, true)
+		ctx := context.Background()
+		mk := func(id string, seq int, flush bool) *el.Event {
+			return &el.Event{Type: "t", Payload: &hn.GP{ID: id, Seq: seq, Flush: flush, Rec: g.Rec}}
+		}
+		vrt.Quiet(func() {
+			g.F.Process(ctx, mk("a", 1, false))
+			g.F.Process(ctx, mk("b", 2, false))
+		})
+		vrt.GoNamed("flushall", func() {
+			if err := g.F.FlushAll(ctx); err != nil {
+				vrt.Fail("FlushAll: %v", err)
+			}
+		})
+		vrt.GoNamed("flush-event", func() {
+			if _, err := g.F.Process(ctx, mk("a", 3, true)); err != nil {
+				vrt.Fail("Process(flush a): %v", err)
+			}
+		})
+		vrt.GoNamed("close", func() {
+			if err := g.F.Close(ctx); err != nil {
+				vrt.Fail("Close: %v", err)
+			}
+		})
+		vrt.Join()
+		times := map[int]int{}
+		sig := ""
+		for _, comp := range g.Rec.All() {
+			for _, s := range comp.Seqs {
+				times[s]++
+			}
+			sig += fmt.Sprintf("%s%v ", comp.ID, comp.Seqs)
+		}
+		for _, s := range []int{1, 2, 3} {
+			if times[s] != 1 {
+				vrt.Fail("FlushAll || flush event || Close: event #%d was emitted %d time(s), exactly once expected (compositions: %s)", s, times[s], sig)
+			}
+		}
+		return sig
+	}
+}
+
 func concBody(c conc) func() string {
+	if c.Flush {
+		return flushBody(c)
+	}
 	return func() string {
 		g := hn.NewGateInst(hn.GateCfg{Broker: c.Broker, IDs: []string{"a", "b", "c"}}, true)
 		ctx := context.Background()
